@@ -498,3 +498,112 @@ Proof.
   - right. split; [discriminate|]. intros k [<-|[]]. destruct Hty as (am & mf & md & Hty). eapply Live; exact Hty.
   - exfalso. exact (Hnp i x Hx Hp).
 Qed.
+
+(* ---------- histories ---------- *)
+Fixpoint hist_wf (c : cfg) (s : sys) (evs : list event) : Prop :=
+  match evs with [] => True | ev :: r => ev_wf s ev /\ hist_wf c (fst (step c s ev)) r end.
+
+Lemma wreach_run c : forall evs s, wreach c s -> hist_wf c s evs -> wreach c (fst (run c s evs)).
+Proof.
+  induction evs as [|ev r IH]; intros s Hs Hwf; cbn [run]; [exact Hs|]. destruct Hwf as (H1 & H2).
+  pose proof (wr_step c s ev Hs H1) as Hs1. destruct (step c s ev) as [s1 o]. cbn [fst] in *.
+  specialize (IH s1 Hs1 H2). destruct (run c s1 r) as [s2 os]. exact IH.
+Qed.
+
+(* the state after a history from a start state *)
+Definition after (c : cfg) (n : node) (t0 h0 a0 : N) (evs : list event) : sys := fst (run c (sys_start n t0 h0 a0) evs).
+
+Lemma after_wreach c n t0 h0 a0 evs : node_ok n -> hist_wf c (sys_start n t0 h0 a0) evs -> wreach c (after c n t0 h0 a0 evs).
+Proof. intros Hn Hwf. apply wreach_run; [constructor; exact Hn|exact Hwf]. Qed.
+
+(* ---------- the record is free or absent only when nothing is pending or complete and no pay command runs ---------- *)
+Theorem free_means_quiet c s : wreach c s -> free_view (ds (nd s)) -> quiet (nd s).
+Proof.
+  intros Hw Hf. destruct (wreach_inv c s Hw) as (_ & _ & _ & HN). split; [exact (free_all_failed s HN Hf)|].
+  destruct (N.eq_dec (payrun (nd s)) 0) as [E|E]; [exact E|]. exfalso.
+  pose proof (ni_wa s HN (or_intror E)) as Hh. unfold hot in Hh. unfold free_view in Hf. destruct (ds (nd s)) as [[[] ?]|]; cbn in *; tauto.
+Qed.
+
+(* ---------- a completed part stays completed ---------- *)
+Lemma has_done_step c s ev p : has_done p (parts (nd s)) -> has_done p (parts (nd (fst (step c s ev)))).
+Proof.
+  intros H. destruct ev; cbn [step].
+  - destruct (entry_ (pl s)); [destruct (find_select 0 (lcs (pl s))) as [[[i d] li]|]|match goal with |- context [find_select 0 ?l] => destruct (find_select 0 l) as [[[i d] li]|] end];
+      try exact H;
+      match goal with |- context [apply_adv ?s1 ?i ?a] => change (has_done p (parts (nd (fst (let '(s2, o2) := apply_adv s1 i a in (s2, o2)))))) || idtac end;
+      match goal with |- context [apply_adv ?s1 ?i ?a] => unfold apply_adv end; cbn; exact H.
+  - destruct (nth_error (calls s) cid) as [cl|]; [|exact H]. destruct (c_st cl); try exact H.
+    pose proof (node_exec_parts (nd s) (c_rpc cl) f) as Hp. destruct (node_exec (nd s) (c_rpc cl) f) as [n' y]. cbn in *. rewrite Hp. exact H.
+  - destruct (nth_error (calls s) cid) as [cl|]; [|exact H]. destruct (c_st cl); try exact H.
+    destruct (find_owner c 0 (lcs (pl s)) cid y sel (entry_ (pl s)) (length (calls s)) (height s) (now s) (next_att (pl s))) as [[i a]|]; [|exact H].
+    unfold apply_adv. cbn. exact H.
+  - destruct (nth_error (parts (nd s)) pid) as [[]|] eqn:Hp, st; try exact H; cbn; apply has_done_upd; assumption.
+  - destruct (nth_error (calls s) cid) as [[q st]|]; [|exact H]. destruct q; try exact H. destruct st; try exact H. cbn. apply has_done_app. exact H.
+  - destruct (nth_error (calls s) cid) as [[q st]|]; [|exact H]. destruct q; try exact H. destruct st; exact H.
+  - destruct (fire_timers (lcs (pl s)) (entry_ (pl s)) (now s + dt)) as [[l' e'] o']. exact H.
+  - exact H.
+  - exact H.
+Qed.
+
+Lemma has_done_run c p : forall evs s, has_done p (parts (nd s)) -> has_done p (parts (nd (fst (run c s evs)))).
+Proof.
+  induction evs as [|ev r IH]; intros s H; cbn [run]; [exact H|].
+  pose proof (has_done_step c s ev p H) as H1. destruct (step c s ev) as [s1 o]. specialize (IH s1 H1). destruct (run c s1 r) as [s2 os]. exact IH.
+Qed.
+
+Lemma has_done_not_all_failed p ps : has_done p ps -> all_failed ps -> False.
+Proof. intros Hd Ha. apply In_nth_error in Hd as (i & Hi). specialize (Ha i _ Hi). discriminate. Qed.
+
+(* ---------- at most one pay command is outstanding ---------- *)
+Theorem one_pay_at_a_time c s k1 k2 cl1 cl2 :
+  wreach c s -> nth_error (calls s) k1 = Some cl1 -> nth_error (calls s) k2 = Some cl2 ->
+  is_pay (c_rpc cl1) = true -> is_pay (c_rpc cl2) = true -> live (c_st cl1) -> live (c_st cl2) -> k1 = k2.
+Proof.
+  intros Hw H1 H2 P1 P2 L1 L2. destruct (wreach_inv c s Hw) as (_ & HC & HO & _). pose proof (wreach_U c s Hw) as HU.
+  destruct (c_rpc cl1) eqn:E1; try discriminate. destruct (c_rpc cl2) eqn:E2; try discriminate.
+  destruct (live_pay_owner c s k1 cl1 _ _ _ _ _ HC HO H1 E1 L1) as (i & x & a & g & Hx & Hp).
+  destruct (live_pay_owner c s k2 cl2 _ _ _ _ _ HC HO H2 E2 L2) as (j & y & a' & g' & Hy & Hp').
+  destruct (att_unique s i j x y HU Hx Hy ltac:(rewrite Hp; reflexivity) ltac:(rewrite Hp'; reflexivity)) as (_ & ->). congruence.
+Qed.
+
+(* ---------- an accepted HTLC is held or answered ---------- *)
+Lemma select_poll_held_or_answered c li base hgt tnow d en sel na :
+  let a := select_poll c li base hgt tnow d (Some en) sel na in
+  (exists en', a_entry a = Some en' /\ listeners en' = listeners en) \/
+  (exists r, forall h, In h (listeners en) -> In (OResp (hid h) r) (a_out a)).
+Proof.
+  unfold select_poll, go_pay, do_resolve, stay.
+  assert (R : forall rq fq r h, In h (listeners en) -> In (OResp (hid h) r) (resolve_outs (set_queues en rq fq) r ++ [])).
+  { intros rq fq r h Hh. rewrite app_nil_r. unfold resolve_outs. cbn [set_queues listeners]. apply in_map_iff. exists h. auto. }
+  destruct (rdy_q en); destruct (fail_q en) as [r|]; try destruct sel; cbn [a_out a_entry];
+    try (left; eexists; split; [reflexivity|reflexivity]); right; exists r; intros h Hh; apply R; exact Hh.
+Qed.
+
+Lemma e_handle_listeners c e h : listeners (e_handle c e h) = h :: listeners e.
+Proof.
+  unfold e_handle, e_add. cbn [listeners].
+  assert (F : forall x r, listeners (e_fail x r) = listeners x) by (intros x r; unfold e_fail; destruct (is_fail x); reflexivity).
+  repeat match goal with |- context [if ?b then _ else _] => destruct b end; rewrite ?F; reflexivity.
+Qed.
+
+Theorem htlc_held_or_answered c s h :
+  (exists en, entry_ (pl (fst (step c s (EvHtlc h)))) = Some en /\ In h (listeners en)) \/
+  (exists r, In (OResp (hid h) r) (snd (step c s (EvHtlc h)))).
+Proof.
+  cbn [step].
+  assert (G : forall s1 i li d e0 outs0, 
+            let a := select_poll c li (length (calls s1)) (height s) (now s) d (Some (e_handle c e0 h)) true (next_att (pl s)) in
+            (exists en, entry_ (pl (fst (let '(s2, o2) := apply_adv s1 i a in (s2, outs0 ++ o2)))) = Some en /\ In h (listeners en)) \/
+            (exists r, In (OResp (hid h) r) (snd (let '(s2, o2) := apply_adv s1 i a in (s2, outs0 ++ o2))))).
+  { intros s1 i li d e0 outs0 a.
+    destruct (select_poll_held_or_answered c li (length (calls s1)) (height s) (now s) d (e_handle c e0 h) true (next_att (pl s))) as [(en' & He & Hl)|(r & Hr)].
+    - left. exists en'. unfold apply_adv. cbn [fst pl entry_]. split; [exact He|]. rewrite Hl, e_handle_listeners. left; reflexivity.
+    - right. exists r. unfold apply_adv. cbn [snd]. apply in_or_app. right. apply in_or_app. left. apply Hr. rewrite e_handle_listeners. left; reflexivity. }
+  destruct (entry_ (pl s)) as [e|].
+  - destruct (find_select 0 (lcs (pl s))) as [[[i d] li]|].
+    + match goal with |- context [apply_adv ?s1 _ _] => apply (G s1 i li d e []) end.
+    + left. eexists. split; [reflexivity|]. rewrite e_handle_listeners. left; reflexivity.
+  - match goal with |- context [find_select 0 ?l] => destruct (find_select 0 l) as [[[i d] li]|] end.
+    + match goal with |- context [apply_adv ?s1 _ _] => apply (G s1 i li d (new_entry h) [OCall (length (calls s)) QListState]) end.
+    + left. eexists. split; [reflexivity|]. rewrite e_handle_listeners. left; reflexivity.
+Qed.
